@@ -370,6 +370,19 @@ def run(prog: Program, ctx: Ctx) -> None:  # noqa: PLR0912,PLR0915
             ctx.ob("R5", key(dump, "cls:json.dumps"), cv is not None and unparse(cv) == "JSONEncoder", "the combined dump uses JSONEncoder", where(dump, c))
         sk, _ = kwarg_deep(dump, c, "sort_keys")
         ctx.ob("R5", key(dump, f"sort_keys:{norm(c.func)}"), sk is not None and isinstance(sk, ast.Constant) and sk.value is True, "keys are sorted (deterministic output)", where(dump, c))
+    # the positional arguments of `griffe dump` are names *or paths* (the loader is called with try_relative_path=True): inside dump() they may only
+    # be handed to the loading helper or counted - used as module names (compared, iterated into keys, indexed) a package given by path is lost
+    pparam = dump.params[0]
+    from sa.srcmodel import parent as _parent
+
+    for n_ in walk_no_nested(dump.node):
+        if isinstance(n_, ast.Name) and n_.id == pparam and isinstance(n_.ctx, ast.Load):
+            par = _parent(n_)
+            fine = isinstance(par, ast.Call) and ((n_ in par.args or any(kw.value is n_ for kw in par.keywords)) and
+                                                  ((dotted(par.func) or "").split(".")[-1] in ("_load_packages", "load", "len")))
+            ctx.ob("R5", key(dump, f"package-args:{norm(par, 50)}"), fine,
+                   "the package arguments are only passed to the loader or counted" if fine else
+                   f"`{norm(par, 70)}` uses the raw command-line arguments as module names: `griffe dump src/pkg` loads `pkg`, which no longer matches", where(dump, n_))
     awk = writer_keys(prog, prog.cls(f"{M}.Alias"))
     tp = awk.get("target_path")
     ok = tp is not None and len(tp.values) == 1 and unparse(tp.values[0]) == "self.target_path"
